@@ -286,6 +286,15 @@ NAMED_READ_WITNESSES = [
                                                                            {"type": "record", "name": "NR", "fields": [{"name": "k", "type": "int"}]}]}]},
      {"v": 1, "u": "A", "next": {"v": 2, "u": {"k": 7}, "next": {"v": 3, "u": "B", "next": None}}}),
 ]
+# "error"-typed records are named types like records: (name, value) with return_named_type, identical bytes on write-back
+_ER1 = {"type": "error", "name": "Err1", "fields": [{"name": "m", "type": "string"}]}
+_ER2 = {"type": "error", "name": "ns.Err2", "fields": [{"name": "m", "type": "string"}]}
+NAMED_READ_WITNESSES_HINTED = [
+    ({"type": "record", "name": "O4", "fields": [{"name": "e1", "type": ["null", _ER1, _ER2]}, {"name": "e2", "type": ["null", "ns.Err2"]},
+                                                  {"name": "arr", "type": {"type": "array", "items": ["Err1", "ns.Err2", "string"]}}]},
+     {"e1": ("ns.Err2", {"m": "x"}), "e2": {"m": "y"}, "arr": [("ns.Err2", {"m": "z"}), "s", ("Err1", {"m": "w"})]}),
+    ([_ER1, _ER2], ("ns.Err2", {"m": "x"})),
+]
 NAMED_READ_OPTS = [{}, {"return_named_type": True}, {"return_record_name": True},
                    {"return_named_type": True, "return_named_type_override": True},
                    {"return_record_name": True, "return_record_name_override": True},
@@ -298,13 +307,16 @@ def named_read_witnesses(ctx, stats):
     below a by-name step; also the closure write-back (mode 'none': no hints in the data)"""
     import fastavro, json
     cs = []
-    for raw, datum in NAMED_READ_WITNESSES:
+    for raw, datum, mode in [(r, d, "none") for r, d in NAMED_READ_WITNESSES] + [(r, d, "named") for r, d in NAMED_READ_WITNESSES_HINTED]:
         named = {}
         parsed = fastavro.parse_schema(json.loads(json.dumps(raw)), named)
-        for ro in NAMED_READ_OPTS:
+        # "error" records: only the named-type option without overrides (the model has no separate constructor for "error":
+        # fastavro's return_record_name and the *_override counting look at "record" only -- observation, not compared)
+        opts = NAMED_READ_OPTS if mode == "none" else [{}, {"return_named_type": True}]
+        for ro in opts:
             for use_raw in (False, True):
                 c = CC.Case()
-                c.raw, c.parsed, c.named, c.datum, c.suffix, c.wopts, c.ropts, c.tag, c.use_raw = raw, parsed, named, datum, b"", {}, dict(ro), "witness-named-read:none", use_raw
+                c.raw, c.parsed, c.named, c.datum, c.suffix, c.wopts, c.ropts, c.tag, c.use_raw = raw, parsed, named, datum, b"", {}, dict(ro), "witness-named-read:" + mode, use_raw
                 cs.append(c)
     model = U_run(ctx, [expr(c) for c in cs], "c09w")
     for c, m in zip(cs, model):
